@@ -11,8 +11,8 @@ import (
 
 // KNOWN_FINDINGS.txt
 //
-//   known: property=C04 id=F031 sig=<pattern> [tags=a,b] [mode=16|32] [input=<Go-quoted source>] [got=<hex>] :: what fails, where
-//   fixed: property=C13 <commit> <what failed>
+//	known: property=C04 id=F031 sig=<pattern> [tags=a,b] [mode=16|32] [input=<Go-quoted source>] [got=<hex>] :: what fails, where
+//	fixed: property=C13 <commit> <what failed>
 //
 // A `known` entry absorbs violations whose signature matches its pattern; a
 // `fixed` entry absorbs nothing.  The file is only ever read.
